@@ -19,10 +19,13 @@ var checks = map[string]func(*ctx){
 	"C01": runC01,
 	"C02": runC02,
 	"C03": runC03,
+	"C04": runC04,
 	"C05": runC05,
 	"C07": runC07,
+	"C08": runC08,
 	"C09": runC09,
 	"C10": runC10,
+	"C11": runC11,
 	"C12": runC12,
 	"C13": runC13,
 	"C14": runC14,
